@@ -84,6 +84,36 @@ def warm_cache() -> float:
     return time.time() - t
 
 
+def build_native() -> Dict[str, Any]:
+    """Rebuild the Rust native module from /repo/rust into scratch (offline) and, if it differs from the
+    installed src/basilisp/_lang.abi3.so, make harness workers and replays load the fresh build."""
+    info: Dict[str, Any] = {"rebuilt": False}
+    t = time.time()
+    target = os.path.join(scratch(), "cargo")
+    e = dict(os.environ, CARGO_TARGET_DIR=target, CARGO_NET_OFFLINE="true")
+    try:
+        r = subprocess.run(["cargo", "build", "--offline", "--release"], cwd=os.path.join(REPO, "rust"), env=e,
+                           capture_output=True, text=True, timeout=900)
+    except Exception as ex:  # cargo missing etc.
+        info["error"] = repr(ex)
+        return info
+    info["cargo_s"] = round(time.time() - t, 1)
+    so = os.path.join(target, "release", "libbasilisp_native.so")
+    if r.returncode != 0 or not os.path.exists(so):
+        info["error"] = r.stderr[-500:]
+        return info
+    info["rebuilt"] = True
+    installed = os.path.join(SRC, "basilisp", "_lang.abi3.so")
+    same = os.path.exists(installed) and open(installed, "rb").read() == open(so, "rb").read()
+    info["installed_so_matches_sources"] = same
+    if not same:
+        os.environ["VERIF_NATIVE_SO"] = so
+        info["using"] = "fresh build from /repo/rust"
+    else:
+        info["using"] = "installed _lang.abi3.so (identical to a fresh build)"
+    return info
+
+
 def src_sha(path: str, qualname: Optional[str] = None) -> str:
     with open(path, "rb") as f:
         data = f.read()
